@@ -24,7 +24,7 @@ pub fn file_pos(
     snap: &ServerSnapshot,
     doc: lsp_types::TextDocumentPositionParams,
 ) -> (FilePosition, Arc<LineIndex>) {
-    let vfs = snap.vfs.read().unwrap();
+    let vfs = &snap.vfs;
     let path = UrlExt::to_file_path(&doc.text_document.uri);
     let file_id = vfs.file_for_path(&path).unwrap();
     let line_index = snap.analysis.line_index(file_id);
@@ -37,7 +37,7 @@ pub fn file_range(
     doc: lsp_types::TextDocumentIdentifier,
     lsp_range: lsp_types::Range,
 ) -> (FileRange, Arc<LineIndex>) {
-    let vfs = snap.vfs.read().unwrap();
+    let vfs = &snap.vfs;
     let path = UrlExt::to_file_path(&doc.uri);
     let file_id = vfs.file_for_path(&path).unwrap();
     let line_index = snap.analysis.line_index(file_id);
@@ -49,7 +49,7 @@ pub fn file(
     snap: &ServerSnapshot,
     doc: lsp_types::TextDocumentIdentifier,
 ) -> (FileId, Arc<LineIndex>) {
-    let vfs = snap.vfs.read().unwrap();
+    let vfs = &snap.vfs;
     let path = UrlExt::to_file_path(&doc.uri);
     let file_id = vfs.file_for_path(&path).unwrap();
     let line_index = snap.analysis.line_index(file_id);
